@@ -1062,11 +1062,21 @@ def _split_tuple_assignments(fnode):
             if isinstance(st, ast.Try):
                 for h in st.handlers:
                     h.body = rec(h.body)
+            # a = b = <immutable value>  ->  a = <value>; b = <value>
+            if isinstance(st, ast.Assign) and len(st.targets) > 1 and (
+                    isinstance(st.value, (ast.Constant, ast.Name)) or (isinstance(st.value, ast.Attribute) and isinstance(st.value.value, ast.Name))
+                    or (isinstance(st.value, ast.Call) and isinstance(st.value.func, ast.Name) and st.value.func.id in ("float", "int", "str", "bool")
+                        and all(isinstance(a_, ast.Constant) for a_ in st.value.args) and not st.value.keywords)):
+                for t in st.targets:
+                    out.append(ast.copy_location(ast.Assign(targets=[t], value=clone(st.value)), st))
+                continue
             if isinstance(st, ast.Assign) and len(st.targets) == 1 and isinstance(st.targets[0], (ast.Tuple, ast.List)) \
                     and isinstance(st.value, (ast.Tuple, ast.List)) and len(st.targets[0].elts) == len(st.value.elts) \
-                    and all(isinstance(t, ast.Name) for t in st.targets[0].elts) and not any(isinstance(v, ast.Starred) for v in st.value.elts):
-                tnames = {t.id for t in st.targets[0].elts}
-                reads = {n.id for v in st.value.elts for n in ast.walk(v) if isinstance(n, ast.Name)}
+                    and all(isinstance(t, ast.Name) or (isinstance(t, ast.Attribute) and isinstance(t.value, ast.Name)) for t in st.targets[0].elts) \
+                    and not any(isinstance(v, ast.Starred) for v in st.value.elts):
+                tnames = {ast.unparse(t) for t in st.targets[0].elts}
+                reads = {n.id for v in st.value.elts for n in ast.walk(v) if isinstance(n, ast.Name)} | \
+                    {ast.unparse(n) for v in st.value.elts for n in ast.walk(v) if isinstance(n, ast.Attribute)}
                 if not (tnames & reads) and getattr(st, "_inlined", True):
                     for t, v in zip(st.targets[0].elts, st.value.elts):
                         out.append(ast.copy_location(ast.Assign(targets=[t], value=v), st))
